@@ -8,7 +8,7 @@
    D14 (an absent target used to be created empty for locking) is repaired: the statements hold
    for an absent prior state as well; there is no known class left. *)
 From Coq Require Import NArith List String.
-From SG Require Import State.Fs State.AtomicWrite State.Proofs_C13.
+From SG Require Import State.Fs State.AtomicWrite State.Proofs_C13 State.Proofs_C13b.
 Import ListNotations.
 Open Scope N_scope.
 
@@ -61,6 +61,37 @@ Theorem C13_temp_content : forall (prior : option bytes) (new : bytes) (sz : N) 
   temp_of (crash prior new sz k) = Some new.
 Proof. exact crash_temp_content. Qed.
 Print Assumptions C13_temp_content.
+
+(* crash HISTORIES: [after_crashes f h] is what any sequence h of crashed saves (content, size,
+   crash point) of a process with the same, recycled pid leaves -- each starts from what the
+   previous one left, the stale temp file  .<name>.tmp.<pid>  included (File::create truncates it).
+   A save that then runs to completion installs exactly the new content and leaves no temp file. *)
+Theorem C13_save_after_any_crash_history : forall (prior : option bytes) (h : list (bytes * N * nat)) (new : bytes) (sz : N),
+  target (crash_from (after_crashes (fs_init prior) h) new sz 9) = Some new /\
+  temp_of (crash_from (after_crashes (fs_init prior) h) new sz 9) = None.
+Proof. exact save_after_crashes. Qed.
+Print Assumptions C13_save_after_any_crash_history.
+
+(* ... a further crash at any point k leaves the target as the history left it, or completely new *)
+Theorem C13_crash_safe_after_history : forall (prior : option bytes) (h : list (bytes * N * nat)) (new : bytes) (sz : N) (k : nat),
+  target (crash_from (after_crashes (fs_init prior) h) new sz k) =
+  if Nat.leb k 7 then target (after_crashes (fs_init prior) h) else Some new.
+Proof. exact crash_after_history. Qed.
+Print Assumptions C13_crash_safe_after_history.
+
+(* ... and what a history leaves in the target is the prior content or one of the complete documents *)
+Theorem C13_history_target_complete : forall (prior : option bytes) (h : list (bytes * N * nat)),
+  target (after_crashes (fs_init prior) h) = prior \/
+  exists c sz k, In (c, sz, k) h /\ target (after_crashes (fs_init prior) h) = Some c.
+Proof. exact history_target_complete. Qed.
+Print Assumptions C13_history_target_complete.
+
+(* non-vacuity: a long document's save is killed after the flush, then a short one is saved with the same pid *)
+Example C13_stale_temp_is_truncated :
+  temp_of (crash (Some (ser [1])) (ser [1; 2; 3; 4; 5]) 20000 6) = Some (ser [1; 2; 3; 4; 5]) /\
+  target (crash_from (crash (Some (ser [1])) (ser [1; 2; 3; 4; 5]) 20000 6) (ser [7]) 3 9) = Some (ser [7]).
+Proof. vm_compute. split; reflexivity. Qed.
+Print Assumptions C13_stale_temp_is_truncated.
 
 (* the document abstraction: a truncated document never parses (so a partial file could not hide) *)
 Theorem C13_truncation_detected : forall (v : value) (n : nat),
